@@ -26,6 +26,18 @@ class C10(Prop):
                    'worlds whose uninterrupted run does not converge are discarded']
 
     def make(self, rng, tier):
+        if rng.chance(0.2):
+            # a guest world from the generator of another property (pressure controls and hysteresis pairs, pumps into tanks and multi-link
+            # tanks, leak windows with cut-off schedules, isolation swaps): every state those features keep must survive the restart too
+            import importlib
+            guest = rng.pick(['c05', 'c06', 'c08', 'c09'])
+            scn = importlib.import_module('wsim.props.' + guest).PROP.make(rng, tier)
+            scn['faults'] = []
+            scn.pop('edits', None)
+            scn['guest_of'] = guest.upper()
+            scn['profile'] = 'c10'
+            scn['pause_enum'] = {'salt': rng.irange(0, 10 ** 9)}
+            return scn
         cfg = dict(steps=(3, 14) if tier == 'quick' else (3, 24), n_tanks=[(0, 2), (1, 5), (2, 1)], p_pdd=0.2,
                    hyd_steps=[600, 900, 1800, 3600, 7200])
         scn = gen.gen_world(rng, cfg)
@@ -58,6 +70,9 @@ class C10(Prop):
         hyd = o['hyd_step']
         grid = [k * hyd for k in range(1, o['duration'] // hyd + 1) if k * hyd < o['duration']]
         out = []
+        r0 = Rng(derive('c10grid', (scn.get('pause_enum') or {}).get('salt', 0)))
+        if len(grid) > 16:
+            grid = sorted(set([grid[0], grid[-1]] + [r0.pick(grid) for _ in range(14)]))     # long guest worlds: 16 pause times
         for t in grid:
             for p in PERSIST:
                 out.append({'pauses': [t], 'persist': p})
@@ -142,7 +157,10 @@ class C10(Prop):
         for i, stop in enumerate(pr['pauses']):
             if i + 1 < len(idx) and idx[i + 1] and idx[i + 1][0] <= stop:
                 viol.append(V('c10.part_start', tag, 'part after pause %d starts at %d' % (stop, idx[i + 1][0])))
-        v2 = oracles.compare_tables(out.tables, ref.tables, full, label='c10.values', keys=oracles.SLACK_KEYS,
+        st_cells, q_cells = oracles.on_switching_point(scn, out.tables, ref.tables, full)
+        if st_cells:
+            bump(c, 'c10.status_differs_on_switching_point', len(st_cells))
+        v2 = oracles.compare_tables(out.tables, ref.tables, full, label='c10.values', keys=oracles.SLACK_KEYS, skip_status=st_cells, skip_flow=q_cells,
                                     slack=oracles.solver_slack(scn, ref.tables if hasattr(ref, "tables") and ref.tables is not None else ref.results, full), col_atol=col)
         for x in v2:
             x['sig'] = x['sig'] + '.' + tag
